@@ -222,13 +222,16 @@ for _p, _rules in (("C01", ["CW-ALLOC-INIT", "CW-DEFER-WRAPPER"]), ("C02", ["EBR
 # sequences are part of "deferred work never runs while a critical section active at deferral is active" (C13)
 # ... and collect pops a sealed bag only if THAT bag is expired: the conditional pop's "predicate held for that very
 # element" is what keeps an unexpired bag from being run
-for _r in ("EBR-REACTIVATE", "EBR-FINALIZE-HANDOFF", "EBR-QUEUE"):
+# ... and a critical section entered during tear-down is one of the SAME collector (EBR-TLS' fallback clause)
+for _r in ("EBR-REACTIVATE", "EBR-FINALIZE-HANDOFF", "EBR-QUEUE", "EBR-TLS"):
     if _r not in registry.PROPS["C13"]["rules"]:
         registry.PROPS["C13"]["rules"].append(_r)
 # the dependencies once more, now that every list is complete
 for _p, _src in (("C02", "C13"), ("C03", "C13"), ("C04", "C15")):
     registry.PROPS[_p]["rules"] += [x for x in registry.PROPS[_src]["rules"] if x not in registry.PROPS[_p]["rules"]]
 
+if "EBR-TLS" not in registry.PROPS["C14"]["rules"]:
+    registry.PROPS["C14"]["rules"].append("EBR-TLS")
 if _C01_FROM_C02:
     registry.PROPS["C01"]["rules"] += [x for x in registry.PROPS["C02"]["rules"] if x not in registry.PROPS["C01"]["rules"]]
     registry.PROPS["C01"]["witnesses"] = list(registry.PROPS["C01"].get("witnesses") or []) + [
